@@ -139,7 +139,7 @@ func (d *tDecoder) Decode(b []byte, base unsafe.Pointer, sd *structDesc, maxdept
 	}
 	for _, fid := range sd.requiredFieldIDs {
 		if !bs.test(fid) {
-			return i, newRequiredFieldNotSetException(lookupFieldName(sd.rt, sd.GetField(fid).Offset))
+			return i, newRequiredFieldNotSetException(lookupFieldName(sd.rt, sd.GetField(fid).Offset, sd.GetField(fid).Type.RT))
 		}
 	}
 	if ufs != nil && ufs.Size() > 0 {
